@@ -3,14 +3,14 @@ import json
 import os
 import vlib
 
-PROPS = ['Rangers.Props.C07', 'Rangers.Props.C07Rlp', 'Rangers.Props.C07Conv', 'Rangers.Props.C07Secp', 'Rangers.Props.C07Addr', 'Rangers.Props.C07Fork', 'Rangers.Props.C07Oracle', 'Rangers.Props.C07Unsigned', 'Rangers.Props.C07Facts', 'Rangers.Props.C07Admit']
+PROPS = ['Rangers.Props.C07', 'Rangers.Props.C07Rlp', 'Rangers.Props.C07Conv', 'Rangers.Props.C07Secp', 'Rangers.Props.C07Addr', 'Rangers.Props.C07Fork', 'Rangers.Props.C07Oracle', 'Rangers.Props.C07Unsigned', 'Rangers.Props.C07Batch', 'Rangers.Props.C07Facts', 'Rangers.Props.C07Admit']
 DRIVERS = ['C07']
 META = dict(
     level='proof',
     technique='Lean 4 theorems about an executable model of VerifyTransaction (crypto primitives as parameters) '
               '+ differential correspondence against the real TxPool.VerifyTransaction / eth_tx code with crypto oracle fields',
     level_text='proof',
-    level_note='77 Lean theorems about the executable model of VerifyTransaction that the driver runs; crypto '
+    level_note='81 Lean theorems about the executable model of VerifyTransaction that the driver runs; crypto '
                'primitives are parameters (soundness ends in explicit collision / second-signature witnesses); '
                'two clauses are false of the code and proved partial with counterexamples (unprotected v=27/28 '
                'payloads, recovery-id alias of Sign) and recorded as known findings; one defect fixed '
@@ -95,8 +95,72 @@ def correspond(ctx):
     return out
 
 
+def _admission(ctx, res):
+    """Drive the real admission handlers (worker-connection batch handler, GameExecutor.write/runWrite)
+    with mixed honest/forged batches; oracle by construction. Needs hooks H11a/H11b in the tree."""
+    # hooks H11a/H11b: taken from the tree when it has them (hooks/c07, later /repo main), otherwise the
+    # identical files kept under harness/overlay/c07 are compiled into the packages with `go build -overlay`
+    # (nothing is written into the tree under check)
+    hookfiles = {'src/network/verif_c07_admit.go': 'network_verif_c07_admit.go.txt',
+                 'src/core/verif_c07_admit.go': 'core_verif_c07_admit.go.txt'}
+    repo = os.path.realpath(ctx.repo)
+    missing = [f for f in hookfiles if not os.path.exists(os.path.join(repo, f))]
+    saved_flags = vlib.GOENV.get('GOFLAGS')
+    if missing:
+        ov = dict(Replace={os.path.join(repo, f): os.path.join(vlib.HARNESS, 'overlay', 'c07', hookfiles[f]) for f in missing})
+        ovp = os.path.join(ctx.work, 'c07-overlay.json')
+        json.dump(ov, open(ovp, 'w'))
+        vlib.GOENV['GOFLAGS'] = (saved_flags or '') + ' -overlay=' + ovp
+    try:
+        _admission_runs(ctx, res, overlay=bool(missing))
+    finally:
+        if saved_flags is None:
+            vlib.GOENV.pop('GOFLAGS', None)
+        else:
+            vlib.GOENV['GOFLAGS'] = saved_flags
+
+
+def _admission_runs(ctx, res, overlay):
+    runs = [('c07admit', False, 1)]
+    if ctx.thorough():
+        runs = [('c07admit', False, 3), ('c07admit_race', True, 1)]
+    adm = dict(driven=True, hooks='overlay (harness/overlay/c07)' if overlay else 'in tree', runs=[])
+    for outname, race, n in runs:
+        binp, log = vlib.go_build(ctx, vlib.HARNESS, './cmd/c07', outname, tags='verif c07admit', race=race)
+        if not binp:
+            res['error'] = 'admission harness build failed: ' + log[-1500:]
+            return
+        cwd = ctx.scratch('c07-admit')
+        rc, so, se = vlib.run([binp, 'mode=admit', 'n=%d' % n], cwd=cwd,
+                              env=dict(VERIF_SEED=str(ctx.seed), GOMEMLIMIT='8GiB'), timeout=1500)
+        import shutil
+        shutil.rmtree(cwd, ignore_errors=True)
+        got = None
+        for line in so.split('\n'):
+            if line.startswith('VIOL '):
+                try:
+                    v = json.loads(line[5:])
+                    res['violations'].append(dict(key=v['key'], desc=v['desc'], replay=v['replay']))
+                except Exception:
+                    pass
+            elif line.startswith('ADMIT '):
+                got = json.loads(line[6:])
+        if rc != 0 or got is None:
+            res['error'] = 'admission run (%s) exited %d: %s' % (outname, rc, (se or so)[-1200:])
+            return
+        res['evaluations'] += got['elements']
+        res['distinct_nontrivial'] += got['elements']
+        adm['runs'].append(dict(build=outname, race=race, batches=got['batches'], elements=got['elements'],
+                                honest=got['honest'], forged=got['forged'], by_entry=got['by_entry']))
+    res['admission'] = adm
+    ctx.note('admission: %s' % json.dumps(adm['runs'])[:300])
+
+
 def search(ctx, hints):
     res = dict(evaluations=0, distinct_nontrivial=0, violations=[], samples=[])
+    _admission(ctx, res)
+    if res.get('error'):
+        return res
     binp = os.path.join(vlib.HARNESS, 'bin', 'c07')
     if not os.path.exists(binp):
         binp, log = vlib.go_build(ctx, vlib.HARNESS, './cmd/c07', 'c07')
@@ -129,8 +193,8 @@ def search(ctx, hints):
             res['violations'].append(dict(key=v['key'], desc=v['desc'], replay=v['replay']))
         res['error'] = 'searcher exited %d: %s' % (rc, (se or so)[-1200:])
         return res
-    res['evaluations'] = got['evaluations']
-    res['distinct_nontrivial'] = got['distinct_nontrivial']
+    res['evaluations'] += got['evaluations']
+    res['distinct_nontrivial'] += got['distinct_nontrivial']
     res['violation_counts'] = got.get('violation_counts')
     res['info'] = got.get('info')
     for v in got.get('violations') or []:
